@@ -239,8 +239,84 @@ impl World {
         let core = self.core.clone();
         match st["do"].as_str().unwrap_or("") {
             "participant" => {
+                let saved = self.domain;
+                if let Some(d) = st["domain"].as_i64() {
+                    self.domain = d as i32;
+                }
+                if let Some(tag) = st["tag"].as_str() {
+                    let cfg = dust_dds::configuration::DustDdsConfigurationBuilder::new().domain_tag(tag.to_string()).build().unwrap();
+                    *global().factory.get_mut_configuration().await = cfg;
+                }
                 let k = self.add_participant().await;
-                core.log(json!({"ev": "Participant", "p": k, "net": self.parts[k].index}));
+                if st["tag"].is_string() {
+                    *global().factory.get_mut_configuration().await = DustDdsConfiguration::default();
+                }
+                core.log(json!({"ev": "Participant", "p": k, "net": self.parts[k].index, "domain": self.domain, "tag": st["tag"]}));
+                self.domain = saved;
+            }
+            "pub_status" => {
+                let wi = st["w"].as_u64().unwrap_or(0) as usize;
+                if let Some(wc) = self.writers[wi].as_ref() {
+                    let m = wc.w.get_matched_subscriptions().await.map(|v| v.len() as i64).unwrap_or(-1);
+                    match wc.w.get_publication_matched_status().await {
+                        Ok(s) => core.log(json!({"ev": "PubStatus", "w": wi, "cur": s.current_count, "tot": s.total_count,
+                                                  "curChg": s.current_count_change, "totChg": s.total_count_change, "n": m})),
+                        Err(e) => core.log(json!({"ev": "PubStatus", "w": wi, "err": err_name(&e)})),
+                    }
+                }
+            }
+            "sub_status" => {
+                let ri = st["r"].as_u64().unwrap_or(0) as usize;
+                if let Some(rc) = self.readers[ri].as_ref() {
+                    let m = rc.r.get_matched_publications().await.map(|v| v.len() as i64).unwrap_or(-1);
+                    match rc.r.get_subscription_matched_status().await {
+                        Ok(s) => core.log(json!({"ev": "SubStatus", "r": ri, "cur": s.current_count, "tot": s.total_count,
+                                                  "curChg": s.current_count_change, "totChg": s.total_count_change, "n": m})),
+                        Err(e) => core.log(json!({"ev": "SubStatus", "r": ri, "err": err_name(&e)})),
+                    }
+                }
+            }
+            "set_reader_qos" => {
+                let ri = st["r"].as_u64().unwrap_or(0) as usize;
+                if let Some(rc) = self.readers[ri].as_ref() {
+                    let res = rc.r.set_qos(QosKind::Specific(reader_qos(&st["qos"]))).await;
+                    core.log(json!({"ev": "SetReaderQos", "r": ri, "qos": st["qos"], "res": res_name(&res)}));
+                }
+            }
+            "set_writer_qos" => {
+                let wi = st["w"].as_u64().unwrap_or(0) as usize;
+                if let Some(wc) = self.writers[wi].as_ref() {
+                    let res = wc.w.set_qos(QosKind::Specific(writer_qos(&st["qos"]))).await;
+                    core.log(json!({"ev": "SetWriterQos", "w": wi, "qos": st["qos"], "res": res_name(&res)}));
+                }
+            }
+            "discovered" => {
+                // which participants (by network index) does participant `part` currently know
+                let k = st["part"].as_u64().unwrap_or(0) as usize;
+                let res = self.parts[k].p.get_discovered_participants().await;
+                let mut nets: Vec<i64> = res.as_ref().map(|v| v.iter().map(|h| {
+                    let b: [u8; 16] = (*h).into();
+                    u32::from_ne_bytes([b[8], b[9], b[10], b[11]]) as i64
+                }).collect()).unwrap_or_default();
+                nets.sort();
+                core.log(json!({"ev": "Discovered", "p": k, "net": self.parts[k].index, "knows": nets, "res": res_name(&res)}));
+            }
+            "ignore_participant" => {
+                let k = st["part"].as_u64().unwrap_or(0) as usize;
+                let target = st["target"].as_u64().unwrap_or(1) as usize;
+                let h = self.parts[target].p.get_instance_handle();
+                let res = self.parts[k].p.ignore_participant(h).await;
+                core.log(json!({"ev": "Ignore", "p": k, "net": self.parts[k].index, "target_net": self.parts[target].index, "res": res_name(&res)}));
+            }
+            "meta_faults" => {
+                let fm = FaultMode {
+                    loss: st["loss"].as_f64().unwrap_or(0.0),
+                    dup: st["dup"].as_f64().unwrap_or(0.0),
+                    delay: st["delay"].as_f64().unwrap_or(0.0),
+                    max_delay_ns: st["max_delay_ms"].as_i64().unwrap_or(20) * 1_000_000,
+                };
+                core.lock().meta_faults = fm;
+                core.log(json!({"ev": "MetaFaults", "loss": st["loss"]}));
             }
             "create_decoy_writer" => {
                 // a writer on another topic of the same participant (never matched): exercises code that
@@ -549,7 +625,11 @@ impl World {
                 }
                 let _ = self.parts[k].p.delete_contained_entities().await;
                 let res = g.factory.delete_participant(&self.parts[k].p).await;
-                core.log(json!({"ev": "DeleteParticipant", "p": k, "res": res_name(&res)}));
+                core.log(json!({"ev": "DeleteParticipant", "p": k, "net": self.parts[k].index, "res": res_name(&res)}));
+            }
+            "unsilence" => {
+                core.lock().blocked.clear();
+                core.log(json!({"ev": "Unsilence"}));
             }
             "silence_participant" => {
                 // the participant disappears without saying goodbye: all its traffic is dropped
